@@ -597,7 +597,10 @@ impl CommandHub {
                                         self.handle_worker_response(worker_id, response);
                                     }
                                 }
-                                WorkerResult::CloseSession => self.handle_worker_close(&token),
+                                WorkerResult::CloseSession => {
+                                    self.handle_worker_close(&token);
+                                    self.fail_requests_in_flight_to(worker_id);
+                                }
                             }
                         }
                     }
@@ -679,6 +682,26 @@ impl CommandHub {
         task.job
             .get_gatherer()
             .on_message(&mut self.server, client, worker_id, response);
+    }
+
+    /// The requests a dead worker has not answered will never be: answer them in its
+    /// place with a failure, so that the tasks waiting for them, some without any
+    /// timeout (soft stop, worker upgrade), can finish and answer their client
+    fn fail_requests_in_flight_to(&mut self, worker_id: WorkerId) {
+        let worker = worker_id.to_string();
+        // request ids end with -<worker id>-<task id>-<request index>, see `scatter_on`
+        let unanswered: Vec<RequestId> = self
+            .in_flight
+            .keys()
+            .filter(|request_id| request_id.rsplit('-').nth(2) == Some(worker.as_str()))
+            .cloned()
+            .collect();
+        for request_id in unanswered {
+            self.handle_worker_response(
+                worker_id,
+                WorkerResponse::error(request_id, format!("worker {worker_id} died")),
+            );
+        }
     }
 
     fn handle_finishing_task(&mut self, task_id: TaskId, task: TaskContainer, timed_out: bool) {
